@@ -9,12 +9,20 @@ import FastorModel.Driver.ViewWrite
 import FastorModel.Driver.Linalg
 import FastorModel.Driver.Permute
 import FastorModel.Driver.RandomViews
+import FastorModel.Driver.Reduce
+import FastorModel.Driver.Horizontal
+import FastorModel.Driver.Layout
+import FastorModel.Driver.QR
+import FastorModel.Driver.QRF
+import FastorModel.Driver.LU
+import FastorModel.Driver.Solve
+import FastorModel.Driver.Views
 /-
   `fmodel`: line-protocol driver.  Reads one case per line on stdin, prints the model's observables
   for it.  The harness prints the implementation's observables for the same case in the same format.
   Command handlers live in FastorModel/Driver/*.lean (no Mathlib imports there, so that this links).
 -/
-open Fastor Fastor.Driver
+open Fastor Fastor.Driver Fastor.Driver.ViewsCmd
 
 def step (line : String) : String :=
   match line.trimAscii.toString.splitOn " " with
@@ -41,6 +49,23 @@ def step (line : String) : String :=
   | "rview2" :: rest => runRview2 (parseKV rest)
   | "rview3" :: rest => runRview3 (parseKV rest)
   | "fview3" :: rest => runFview3 (parseKV rest)
+  | "reduce" :: rest => runReduce (parseKV rest)
+  | "minmax" :: rest => runMinmax (parseKV rest)
+  | "pred" :: rest => runPred (parseKV rest)
+  | "detqr" :: rest => runDetQR (parseKV rest)
+  | "hstep" :: rest => runHstep (parseKV rest)
+  | "layout" :: rest => runLayout (parseKV rest)
+  | "mapops" :: rest => runMapops (parseKV rest)
+  | "qr" :: rest => runQR (parseKV rest)
+  | "qrf" :: rest => runQRF (parseKV rest)
+  | "lu" :: rest => runLU (parseKV rest)
+  | "solve" :: rest => runSolve (parseKV rest)
+  | "fsub" :: rest => runFsub (parseKV rest)
+  | "bsub" :: rest => runBsub (parseKV rest)
+  | "view" :: rest => runView (parseKV rest)
+  | "sidx" :: rest => runSidx (parseKV rest)
+  | "iseq" :: rest => runIseq (parseKV rest)
+  | "diag" :: rest => runDiag (parseKV rest)
   | _ => "bad-op"
 
 partial def loop (h : IO.FS.Stream) (out : IO.FS.Stream) : IO Unit := do
